@@ -5,9 +5,13 @@ use std::marker::PhantomData;
 use std::mem;
 use std::ptr;
 use std::sync::atomic::Ordering::*;
+#[cfg(multiqueue2_verif)]
+use crate::verif_hooks::{fence, yield_now, AtomicUsize};
+#[cfg(not(multiqueue2_verif))]
 use std::sync::atomic::{fence, AtomicUsize};
 use std::sync::mpsc::{RecvError, SendError, TryRecvError, TrySendError};
 use std::sync::Arc;
+#[cfg(not(multiqueue2_verif))]
 use std::thread::yield_now;
 
 use crate::alloc;
@@ -22,6 +26,9 @@ use crate::read_cursor::{ReadCursor, Reader};
 
 extern crate atomic_utilities;
 extern crate futures;
+#[cfg(multiqueue2_verif)]
+use crate::verif_hooks::parking_lot;
+#[cfg(not(multiqueue2_verif))]
 extern crate parking_lot;
 extern crate smallvec;
 
@@ -854,6 +861,9 @@ impl FutWait {
 
     pub fn fut_wait(&self, seq: usize, at: &AtomicUsize, wc: &AtomicUsize) -> bool {
         if self.spin(seq, at, wc) && self.park(seq, at, wc) {
+            #[cfg(multiqueue2_verif)]
+            crate::verif_hooks::sleep(::std::time::Duration::from_millis(100));
+            #[cfg(not(multiqueue2_verif))]
             ::std::thread::sleep(::std::time::Duration::from_millis(100));
             true
         } else {
